@@ -88,7 +88,7 @@ def _carbon(ts, name, t1, v1, t2, v2, two):
   return True
 
 
-COMP2 = ['a', 'b', 'name', 'x.y', '', ';', '=', '~x', 'a=b', '!', 'é ', '{"}']
+COMP2 = ['a', 'A', 'a!', 'b', 'name', 'x.y', '', ';', '=', '~x', 'a=b', '!', 'é ', '{"}', 'ab', 'x^y']
 
 
 def C18_carbon(ni: int, t1i: int, v1i: int, t2i: int, v2i: int, two: bool) -> bool:
@@ -125,7 +125,7 @@ def _syntax(ts, name, t1, v1, t2, v2, two, named):
   return True
 
 
-COMP = ['a', 'b', 'name', 'x.y', 'é', 'A', 'a b', 'v~', '0', "it's"]
+COMP = ['a', 'b', 'name', 'x.y', 'é', 'A', 'a b', 'v~', '0', "it's", 'ab', 'B']
 
 
 def C18_syntax(ni: int, t1i: int, v1i: int, t2i: int, v2i: int, two: bool, named: bool) -> bool:
@@ -247,7 +247,7 @@ HARNESSES = [
     encodes=['carbon.util:TaggedSeries.parse', 'carbon.util:TaggedSeries.parse_carbon', 'carbon.util:TaggedSeries.parse_openmetrics',
              'carbon.util:TaggedSeries.validateTagAndValue', 'carbon.util:TaggedSeries.format', 'carbon.util:TaggedSeries.sanitize_name_as_tag_value'],
     assumptions=_ASSUME + ['every string of length <= 4 (quick) / 5 (thorough) over the full alphabet']),
-  H('C18_carbon', quick=dict(timeout=280, shards=[('one', 'not two'), ('two', 'two and ni <= 1 and t1i <= 3 and t2i <= 3 and v1i % 2 == 0')]),
+  H('C18_carbon', quick=dict(timeout=280, shards=[('one', 'not two'), ('two', 'two and ni <= 1 and t1i <= 3 and t2i <= 3 and v1i in (0, 3) and v2i in (0, 3)')]),
     thorough=dict(timeout=600, extra_pre=['(not two) or (v1i % 2 == 0 and v2i % 2 == 0)'], shards=[('one', 'not two')] + [('two_n%d_t%d' % (k, t), 'two and ni == %d and t1i == %d' % (k, t)) for k in range(len(COMP2)) for t in range(len(COMP2))]),
     covers=['accepted', 'rejected', 'permuted'], replay='replay_carbon', twin_pre=['two and ni <= 1'],
     encodes=['carbon.util:TaggedSeries.parse_carbon', 'carbon.util:TaggedSeries.format', 'carbon.util:TaggedSeries.validateTagAndValue'],
